@@ -1,5 +1,5 @@
 """C19: LCU sampling tables and cost arithmetic are exact."""
-import itertools, math
+import itertools, math, os, tempfile
 from dataclasses import replace as dataclasses_replace
 from fractions import Fraction
 import numpy as np
@@ -108,8 +108,14 @@ def run(ctx):
             one, two = spinorb_from_spatial(h, eri)
         spec = spec_tensor(const, one, 0.5 * two)
         v1, v2 = get_one_norm_int(const, h, eri), get_one_norm_int_woconst(h, eri)
+        if i % 2 == 0:
+            # the MolecularData entry points: the values checked below are those of the record carrying these integrals
+            from openfermion.functionals.get_one_norm import get_one_norm_mol, get_one_norm_mol_woconst
+            mol = of.MolecularData([('H', (0, 0, 0)), ('H', (0, 0, 0.7414))], 'sto-3g', 1, filename=os.path.join(tempfile.gettempdir(), 'vf_c19_mol_%d' % os.getpid()))
+            mol.nuclear_repulsion = const; mol.one_body_integrals = h; mol.two_body_integrals = eri
+            v1, v2 = get_one_norm_mol(mol), get_one_norm_mol_woconst(mol)
         add('get_one_norm', '(one_norm_ok %s true %s %s && one_norm_ok %s false %s %s)' % (coq_fop_terms(spec), cQ(Fraction(float(v1))), cQ(Fraction(1, 10 ** 9)), coq_fop_terms(spec), cQ(Fraction(float(v2))), cQ(Fraction(1, 10 ** 9))),
-            {'call': 'get_one_norm_int / _woconst', 'constant': const, 'one_body_integrals': h.tolist(), 'two_body_integrals_nonzero': int(np.count_nonzero(eri)), 'returned': [float(v1), float(v2)]}, key=(repr(h.tolist()), repr(eri.tolist()), const))
+            {'call': 'get_one_norm_int / _woconst' if i % 2 else 'get_one_norm_mol / _woconst', 'constant': const, 'one_body_integrals': h.tolist(), 'two_body_integrals_nonzero': int(np.count_nonzero(eri)), 'returned': [float(v1), float(v2)]}, key=(repr(h.tolist()), repr(eri.tolist()), const))
     # ---- QROM helpers: complete ranges
     Lmax = N(600, 4096)
     rows = []
